@@ -442,6 +442,10 @@ def _oracle_sweep(payload):
     return None
 
 
+# the outcome-key arithmetic of the model is the translated source (harness/translate/keys.py -> Generated/Keys.lean)
+THEOREMS = THEOREMS + ["CKT.C13Gen.keys_translated", "CKT.C13Gen.step_flippers"]
+
+
 def regenerate():
     """the outcome-key arithmetic of simulate_statevector_outcomes, translated on every run"""
     from ..translate import keys
